@@ -1169,6 +1169,41 @@ func (g *G) pickRep(a, b Rep) Rep {
 	return b
 }
 
+// genVaryCCCase: the stored response varies on Cache-Control itself; later requests carry their directives on several field
+// lines with only-if-cached on a later one (what is done to the request while looking for a variant must not lose it)
+func (g *G) genVaryCCCase(p *Profile, id string) *Case {
+	c := &Case{ID: id, Stream: "M", SWRTimeout: p.SWRTimeouts[g.intn(len(p.SWRTimeouts))]}
+	res := g.intn(2)
+	vary := g.pick("Cache-Control", "Cache-Control, Accept-Encoding", "accept-encoding, cache-control")
+	first := tRep(0, 200, g.pick("max-age=60", "max-age=1", "max-age=1, stale-while-revalidate=30"), Hdr{"Vary", []string{vary}}, Hdr{"ETag", []string{`"v1"`}})
+	firstCC := g.pick("max-stale=5", "max-stale=5", "min-fresh=1", "")
+	var h0 []Hdr
+	if firstCC != "" {
+		h0 = []Hdr{{"Cache-Control", []string{firstCC}}}
+	}
+	lines := func() []Hdr {
+		a := g.pick("max-stale=5", "max-stale=5", "min-fresh=1", "max-stale=100", "max-age=3600")
+		switch g.intn(3) {
+		case 0:
+			return []Hdr{{"Cache-Control", []string{a, "only-if-cached"}}}
+		case 1:
+			return []Hdr{{"Cache-Control", []string{a, "", "only-if-cached, " + a}}}
+		default:
+			return []Hdr{{"Cache-Control", []string{a + ", " + a, "foo=1", "only-if-cached"}}}
+		}
+	}
+	c.Reqs = []Req{{Gap: time.Second, Method: "GET", URL: g.urlFor(res, false), Hdrs: h0},
+		{Gap: g.pickD(time.Second, 3*time.Second), Method: "GET", URL: g.urlFor(res, false), Hdrs: lines()},
+		{Gap: g.pickD(time.Second, 70*time.Second), Method: "GET", URL: g.urlFor(res, false), Hdrs: lines()},
+		{Gap: time.Second, Method: "GET", URL: g.urlFor(res, false), Hdrs: h0}}
+	c.Script = []ScriptEntry{{Plain: first, Cond: first}}
+	for i := 1; i < 6; i++ {
+		r := tRep(i, 200, "max-age=60", Hdr{"Vary", []string{vary}}, Hdr{"ETag", []string{`"v2"`}})
+		c.Script = append(c.Script, ScriptEntry{Plain: r, Cond: r})
+	}
+	return c
+}
+
 func (g *G) genFor(p *Profile, id string, i int) *Case {
 	g.noVaryCC = p.Name == "spell"
 	switch {
@@ -1188,6 +1223,8 @@ func (g *G) genFor(p *Profile, id string, i int) *Case {
 		return g.genBgFailureCase(p, id)
 	case p.Name == "store" && i%10 == 2:
 		return g.genNoStoreBackgroundCase(p, id)
+	case p.Name == "oic" && i%12 == 7:
+		return g.genVaryCCCase(p, id)
 	}
 	return g.genCase(p, id)
 }
